@@ -35,10 +35,49 @@ def py_sx(v):
     raise ValueError(v)
 
 
-def wrong_type(t):
+WRONG = {
+    # Python objects the type check is specified to reject, per kind (type_checker.py: bool; int or str; None; (bytes, int) tuple with
+    # enough data; bytes / bytearray; str; dict; list; (str, value) tuple)
+    'bool': [1, 0, 'TRUE', None, (True,), 1.5, [], b'\x01'],
+    'null': [0, False, '', (), 'NULL', []],
+    'int': [1.5, None, (1,), [1], b'\x01', {}],
+    'enum': [5, None, ('a',), 1.5, [], b'a'],
+    'octs': ['x', 5, None, (b'a', 8), ('n', None), (), (b'a',), [97], {}],
+    'bits': ['x', b'\x80', (b'\x80',), (b'\x80', 1, 0), ('80', 1), (1, 2), None, [b'\x80', 1], (b'\x80', '1')],
+    'str': [5, b'x', None, ('a',), (b'x', 3), (), ['a'], {}, 1.5],
+    'seq': [[], None, 'x', (), 5, (('a', 1),)],
+    'seqof': [{}, None, 'x', (), 5, (1, 2)],
+    'choice': ['x', None, 5, [], {}, ('a',), ('a', 1, 2)],
+}
+
+
+def wrong_type(t, rng=None):
+    c = WRONG[t['k']]
+    return c[0] if rng is None else rng.choice(c)
+
+
+def same_name_nesting(rng, t, parent=None):
+    """with some probability give a member of a nested SEQUENCE (alternative of a nested CHOICE) the name of the member that holds
+    it, as in chains like nonCriticalExtension { nonCriticalExtension { ... } }: the reported path must name BOTH levels"""
     k = t['k']
-    return {'bool': 1, 'null': 0, 'int': 1.5, 'enum': 5, 'octs': 'x', 'bits': 'x', 'str': 5,
-            'seq': [], 'seqof': {}, 'choice': 'x'}[k]
+    if k == 'seq':
+        ms = t['root'] + (t['ext'] or [])
+        if parent and ms and rng.random() < 0.5 and not any(m['name'] == parent for m in ms):
+            same_kind = [m for m in ms if m['t']['k'] == 'seq']
+            rng.choice(same_kind if same_kind and rng.random() < 0.8 else ms)['name'] = parent
+        for m in ms:
+            same_name_nesting(rng, m['t'], m['name'] if m['t']['k'] == 'seq' else None)
+    elif k == 'choice':
+        alts = t['root'] + (t['ext'] or [])
+        if parent and alts and rng.random() < 0.4 and not any(n == parent for n, _ in alts):
+            i = rng.randrange(len(alts))
+            lst = t['root'] if i < len(t['root']) else t['ext']
+            j = i if i < len(t['root']) else i - len(t['root'])
+            lst[j] = (parent, lst[j][1])
+        for n, at in t['root'] + (t['ext'] or []):
+            same_name_nesting(rng, at, n if at['k'] == 'choice' else None)
+    elif k in ('seqof', 'setof'):
+        same_name_nesting(rng, t['elem'], None)
 
 
 def through_addition(t, path):
@@ -79,6 +118,7 @@ def _corruptions(rng, t, v):
     rng.shuffle(pos)
     for path, names, tt, vv in pos[:6]:
         yield 'wrong-python-type', replace(t, v, path, wrong_type(tt)), names, 'type', path
+        yield 'wrong-python-type', replace(t, v, path, wrong_type(tt, rng)), names, 'type', path
         k = tt['k']
         if k == 'choice':
             yield 'unknown-alternative', replace(t, v, path, ('zz', None)), names, 'type', path
@@ -106,6 +146,7 @@ def run(ctx):
     for i in range(ctx.n(150, 3000)):
         g = Gen(rng, opts)
         t = g.type()
+        same_name_nesting(rng, t)
         text = module_text([('A', t)])
         v = g.value(t)
         tsx = ty_sx(t)
@@ -166,6 +207,9 @@ def run(ctx):
                               {'codec': codec, 'module': text, 'value': repr(v), 'kind': kind, 'impl': (r[1:3] if r[0] == 'err' else r[1].hex()), 'expected_path': expect})
             elif len(ctx.samples) < 5 and len(names) >= 2:
                 ctx.sample({'codec': codec, 'module': text, 'value': repr(v)[:200], 'kind': kind, 'impl': r[2][:100], 'expected_path': expect})
+    # members of different types that share a name and a referenced type (DEFAULT / OPTIONAL / SIZE at the point of use)
+    from .. import aliasfam
+    aliasfam.run_c12(ctx, ctx.rng, ctx.n(40, 500), impl, CODECS)
 
 
 def in_addition(t, v):
